@@ -175,6 +175,10 @@ func init() {
 			// once more with the lists of one-letter atoms of the PROGRAM written as double-quoted strings
 			cases, results = c.replay("engine", h.cases, replayOpts{opts: map[string]string{"strings": "1"}})
 			c.judge("engine", cases, results, func(cs, res map[string]J) string { in, _ := res["input"].(string); return in + " (strings)" })
+			// clause selection: every sequence of first arguments of a four-clause predicate, called with each kind of argument in turn
+			gi := c.mcHolds("GenIndex", "GenIndex.cfg", tlcOpts{})
+			cases, results = c.replay("engine", gi.cases, replayOpts{})
+			c.judge("engine", cases, results, func(cs, res map[string]J) string { in, _ := res["input"].(string); return in })
 			// the binding environment as a persistent map: random histories of binds that branch from old versions (EnvPersist.tla,
 			// TLC simulation), every version compared with the model after every step
 			walks := "num=1500"
